@@ -1,7 +1,7 @@
 """C19 — externalised instance state is restored losslessly (mode H).
 
 Session histories: run spec (start x dt) x n steps, each step carrying one of {no body, {},
-constants v1, constants v2 + points}; adapter mode compress off/on; save/load route
+constants v1, constants v2 + points} or being one run-steps request for 2-3 steps with one settings object; adapter mode compress off/on; save/load route
   auto     automatic per-instance save after a stepping request + lazy restore by the next request
            after the instance timed out (virtual clock)
   explicit GET /save-state + POST /load-state
@@ -25,9 +25,16 @@ SM = "smSrv"
 EQS = ["S", "f", "k"]
 
 STEP_KINDS = ["nobody", "empty", "v1", "v2p"]
+MULTI_KINDS = ["rs2v1", "rs2e", "rs3v2p"]     # one run-steps request for several steps: one settings object is logged for each of them
 
 
 def step_body(kind, scenarios):
+    if kind == "rs2v1":
+        return dict(step_body("v1", scenarios), numberSteps=2)
+    if kind == "rs2e":
+        return {"settings": {}, "numberSteps": 2}
+    if kind == "rs3v2p":
+        return dict(step_body("v2p", scenarios), numberSteps=3)
     if kind == "nobody":
         return None
     if kind == "empty":
@@ -79,7 +86,7 @@ def run_history(start, dt, kinds, compress, route, scenarios):
     from BPTK_Py.externalstateadapter import FileAdapter
     from fractions import Fraction
     viol = []
-    stop = float(Fraction(str(start)) + max(6, len(kinds) + 2) * Fraction(str(dt)))
+    stop = float(Fraction(str(start)) + max(6, sum(int(k[2]) if k in MULTI_KINDS else 1 for k in kinds) + 2) * Fraction(str(dt)))
     sd = os.path.join(core.scratch_dir(), "c19_%d" % os.getpid())
     shutil.rmtree(sd, ignore_errors=True)
     os.makedirs(sd)
@@ -97,8 +104,9 @@ def run_history(start, dt, kinds, compress, route, scenarios):
             c.post("/%s/begin-session" % i, json=bsb)
         for j, kind in enumerate(kinds):
             body = step_body(kind, scenarios)
-            r = client.post("/%s/run-step" % iid) if body is None else client.post("/%s/run-step" % iid, json=body)
-            r0 = client0.post("/%s/run-step" % iid0) if body is None else client0.post("/%s/run-step" % iid0, json=body)
+            route_ = "run-steps" if kind in MULTI_KINDS else "run-step"
+            r = client.post("/%s/%s" % (iid, route_)) if body is None else client.post("/%s/%s" % (iid, route_), json=body)
+            r0 = client0.post("/%s/%s" % (iid0, route_)) if body is None else client0.post("/%s/%s" % (iid0, route_), json=body)
             if r.status_code != r0.status_code:
                 viol.append(("status-differs-with-adapter/%s" % kind, "%s: run-step #%d (%s) -> %d with an adapter, %d without; body %r" % (
                     label, j, kind, r.status_code, r0.status_code, str(srv.body(r))[:200])))
@@ -177,6 +185,15 @@ def jobs(tier):
                 if n <= 2:
                     out.append((st, dt, list(kinds), True, "restart", ["base", "alt"]))
                     out.append((st, dt, list(kinds), False, "auto", ["base", "alt"]))
+    # requests that take several steps with one settings object
+    for (st, dt) in ((0, 1), (0.5, 0.5)):
+        for n in (1, 2):
+            for kinds in itertools.product(["nobody", "v1"] + MULTI_KINDS, repeat=n):
+                if not any(k in MULTI_KINDS for k in kinds):
+                    continue
+                for compress in (False, True):
+                    for route in ("auto", "explicit", "restart"):
+                        out.append((st, dt, list(kinds), compress, route, ["base"]))
     # step times whose text order differs from their numeric order: negative times, and sessions of more than ten steps
     for (st, dt, n) in ((-2, 1, 3), (-1, 0.5, 3), (0, 1, 12), (8, 1, 4)):
         for kinds in (["v1"] + ["nobody"] * (n - 1), ["nobody", "v2p"] + ["empty"] * (n - 2), ["nobody"] * n):
@@ -212,7 +229,7 @@ def run(ctx):
         "states": len(js), "transitions": sum(len(j[2]) + 6 for j in js), "traces_validated_against_impl": len(js),
         "samples": [list(j) for j in js[:2]] + [list(js[len(js) // 2])],
         "rule": "histories: run spec x n <= %d steps x every sequence over {no body, {}, constants, constants+points} x compress {off,on} x route "
-                "{auto save + lazy restore after a time-out, save-state/load-state, new server on the same directory} x {1, 2} scenarios; states = histories, "
+                "{auto save + lazy restore after a time-out, save-state/load-state, new server on the same directory} x {1, 2} scenarios; plus histories with run-steps requests of 2-3 steps; states = histories, "
                 "transitions = requests" % (3 if ctx.tier == "quick" else 4),
     }, assumptions=["FileAdapter only", "logs are compared after JSON key normalisation (float keys are stringified by jsonpickle)"])
 
